@@ -11,7 +11,7 @@ func (rs *RecordSet) readFromVersion2(d *decoder) error {
 	baseOffset := d.readInt64()
 	batchLength := d.readInt32()
 
-	if int(batchLength) > d.remain || d.err != nil {
+	if batchLength < 0 || int(batchLength) > d.remain || d.err != nil {
 		d.discardAll()
 		return nil
 	}
@@ -66,6 +66,10 @@ func (rs *RecordSet) readFromVersion2(d *decoder) error {
 	dec.reader = buffer
 	dec.remain = recordsLength
 
+	if numRecords < 0 || int(numRecords) > recordsLength {
+		return fmt.Errorf("invalid record count %d in a record batch of %d bytes", numRecords, recordsLength)
+	}
+
 	records := make([]optimizedRecord, numRecords)
 	// These are two lazy allocators that will be used to optimize allocation of
 	// page references for keys and values.
@@ -105,16 +109,18 @@ func (rs *RecordSet) readFromVersion2(d *decoder) error {
 		keyLength := dec.readVarInt()
 		keyOffset := int64(recordsLength - dec.remain)
 		if keyLength > 0 {
-			dec.discard(int(keyLength))
+			dec.skip(keyLength)
 		}
 
 		valueLength := dec.readVarInt()
 		valueOffset := int64(recordsLength - dec.remain)
 		if valueLength > 0 {
-			dec.discard(int(valueLength))
+			dec.skip(valueLength)
 		}
 
-		if numHeaders := dec.readVarInt(); numHeaders > 0 {
+		if numHeaders := dec.readVarInt(); numHeaders > int64(dec.remain) {
+			dec.setError(io.ErrUnexpectedEOF)
+		} else if numHeaders > 0 {
 			if headers == nil {
 				headers = make([][]Header, numRecords)
 			}
